@@ -261,6 +261,13 @@ func buildPlan(m *Meta, tier string) plan {
 			p.cases = append(p.cases, Case{M: mu, Sit: "local", Mode: "L"})
 		}
 	}
+	// the hand-built history families are few and go first, so that an internal deadline on a busy
+	// machine never cuts them
+	sort.SliceStable(p.cases, func(a, b int) bool {
+		pa := strings.HasPrefix(p.cases[a].M.Class, "craft/") || strings.HasPrefix(p.cases[a].M.Class, "recommit/")
+		pb := strings.HasPrefix(p.cases[b].M.Class, "craft/") || strings.HasPrefix(p.cases[b].M.Class, "recommit/")
+		return pa && !pb
+	})
 	// exhaustive single-point byte edits
 	var blobs []string
 	for _, s := range m.Seeds {
